@@ -215,8 +215,11 @@ func runCase(t *testing.T, tr *hx.Trace, id int, r *rand.Rand, script []string) 
 				}
 				sid := hx.Pick(r, g.ids)
 				sets := g.setsOf[sid]
-				if r.IntN(4) == 0 {
+				switch x := r.IntN(12); {
+				case x < 2:
 					sets = hx.Pick(r, silx.Catalog)
+				case x < 5: // one component of the matcher sets changed: a new id everywhere, never an in-place update
+					sets, _ = silx.VaryAny(r, sets)
 				}
 				start := g.now + int64(r.IntN(4)-1)*grid
 				for _, m := range w.State(i) {
